@@ -320,23 +320,8 @@ def run(P, rep, tier):
 
     # ---- R5 length is the only option dropped -----------------------------------------------------
     r5 = rep.rule('C05-R5', 'the DOM reader drops "length" from stored options and nothing else; only empty content is skipped', reference=2)
-    popped = set()
-    for f in dr.methods.values():
-        for n in walk_no_nested(f.node):
-            if isinstance(n, ast.Call) and isinstance(n.func, ast.Attribute) and n.func.attr == 'pop' and n.args \
-                    and isinstance(n.args[0], ast.Constant):
-                popped.add(n.args[0].value)
-            if isinstance(n, ast.Delete):
-                for t in n.targets:
-                    if isinstance(t, ast.Subscript) and isinstance(t.slice, ast.Constant):
-                        popped.add(t.slice.value)
-                    elif isinstance(t, ast.Subscript):
-                        popped.add(norm(n))
-    if popped == {'length'}:
-        rep.ok(r5, 'dom/reader.py drops %s' % sorted(popped))
-    else:
-        rep.violation(r5, 'dropped:%s' % ','.join(sorted(map(str, popped))), dr.module.relpath,
-                      'the DOM reader removes %s from the options it stores (only "length" is derived data)' % sorted(map(str, popped)))
+    from sa.props.c06 import verbatim_rule
+    verbatim_rule(P, rep, r5)
     skip_rule(P, D, rep, r5, dw, wcls)
 
     # ---- R6 choice sets ------------------------------------------------------------------------------
